@@ -99,7 +99,7 @@ theorem daysPrefix_neg_dec (n : Nat) (h : n < 10 ^ 25) (rest : Bytes) :
   simp only [this, Bool.false_eq_true, if_false, List.drop_left]
 
 
-/-- what `duration_rt` assumes about `time.Duration.String` / `time.ParseDuration` for sub-day values
+/-- what `durationOld_rt_partial` assumes about `time.Duration.String` / `time.ParseDuration` for sub-day values
 (checked on samples of the real library by the `durlib` ops) -/
 structure DurLib (fmt : Int → Bytes) (parse : Bytes → Option Int) : Prop where
   inv : ∀ x, 0 < x → x < day → parse (fmt x) = some x
